@@ -68,6 +68,12 @@ func (e *Engine) verifyFunc(name, prop string, cfg solverCfg, verbose bool) *fun
 		if len(failed) == 0 {
 			break
 		}
+		for f := range failed {
+			// optional invariants: "<loop>|candidate#<ord>"
+			if i := strings.Index(f, "|candidate#"); i >= 0 {
+				vc.candDropped[vc.name+"/"+f[:i]+"|"+f[i+len("|candidate#"):]] = true
+			}
+		}
 		for key, cands := range vc.glue {
 			lp := key[strings.LastIndex(key, "/")+1:]
 			var keep []glueCand
